@@ -44,6 +44,7 @@ DEFAULT_PROFILE = dict(
     allow_last_period_crash=True,
     sessions_cap=16,
     stoch_early=0.5,
+    custom_events=0.0,            # probability of user-defined base Events placed in periods that also hold a built-in event
     reconfig=0.0,                 # probability that the operator changes constraint limits mid-run (environment fault)
 )
 
@@ -253,6 +254,12 @@ def gen_world(rs: int, P: dict) -> dict:
         for _ in range(rx.randint(1, 3)):
             extra.append({"type": "Recompute", "t": rx.randint(0, last + rx.choice([0, 0, 1, 3]))})
 
+    if P.get("custom_events", 0) and rx.random() < P["custom_events"]:
+        # a user-defined Event (base class, precedence inf) in a period that also holds a built-in event: processed last
+        times = sorted({s["arrival"] for s in sessions} | {s["departure"] for s in sessions} | {e["t"] for e in extra})
+        for _ in range(rx.randint(1, 3)):
+            extra.append({"type": "Event", "t": rx.choice(times)})
+
     # party
     rp = sub(rs, "party")
     mr = rp.choice(P["max_recompute"])
@@ -337,8 +344,15 @@ def event_times(sc):
         ev.setdefault(s["arrival"], []).append(("Plugin", s["session_id"]))
         ev.setdefault(s["departure"], []).append(("Unplug", s["session_id"]))
     for e in sc["extra_events"]:
-        ev.setdefault(e["t"], []).append(("Recompute", None))
+        ev.setdefault(e["t"], []).append((e.get("type", "Recompute"), None))
     return ev
+
+
+def ambiguous_periods(sc):
+    """Periods holding only user-defined base Events: the simulator does not treat them as a reason to reschedule, the
+    property text ('an event occurred') could be read either way; oracles about invocation times skip such worlds
+    (the generator never produces them; a shrinking step can)."""
+    return sorted(t for t, l in event_times(sc).items() if all(k == "Event" for k, _ in l))
 
 
 def last_event_time(sc):
@@ -353,7 +367,8 @@ def call_periods(sc):
     calls = []
     last = None
     for t in range(0, last_t + 1):
-        if t in ev or (mr is not None and (last is None or t - last >= mr)):
+        trig = t in ev and any(k != "Event" for k, _ in ev[t])
+        if trig or (mr is not None and (last is None or t - last >= mr)):
             calls.append(t)
             last = t
     return calls
